@@ -222,6 +222,28 @@ pub fn export_tables(tcx: TyCtxt<'_>) -> J {
                     if let Ok(cv) = tcx.const_eval_poly(did) {
                         match cv {
                             ConstValue::Scalar(s) => {
+                                // `&'static [T; N]` tables (e.g. unicode::mcc::MODIFIED_COMBINING_CLASS): a thin pointer to the array
+                                if let (ty::Ref(_, inner, _), Scalar::Ptr(ptr, _)) = (ty.kind(), s) {
+                                    if let ty::Array(elem, _) = inner.kind() {
+                                        let (prov, off) = ptr.into_raw_parts();
+                                        if let GlobalAlloc::Memory(t) = tcx.global_alloc(prov.alloc_id()) {
+                                            let ta = t.inner();
+                                            let start = off.bytes() as usize;
+                                            if ta.provenance().ptrs().is_empty() && ta.len() <= 1 << 16 && start <= ta.len() {
+                                                let tb = ta.inspect_with_uninit_and_ptr_outside_interpreter(start..ta.len());
+                                                let el = layout_j(tcx, *elem);
+                                                o.push(("bytes", J::s(hex(tb))));
+                                                if let Ok(l) = tcx.layout_of(TypingEnv::fully_monomorphized().as_query_input(*elem)) {
+                                                    let sz = l.size.bytes() as usize;
+                                                    if sz > 0 {
+                                                        o.push(("array_len", J::u(tb.len() / sz)));
+                                                    }
+                                                }
+                                                o.push(("elem_layout", el));
+                                            }
+                                        }
+                                    }
+                                }
                                 let v = scalar_j(ty, s);
                                 if matches!(v, J::Null) {
                                     // a newtype over an integer (e.g. PlatformId(u16)): export the raw unsigned bits
